@@ -12,6 +12,12 @@ ASSUMPTIONS = ['exceptions carry the raw message bytes as context data: not part
                'numbers shorter than 10 characters are outside the stated domain']
 
 
+THREADS = True
+
+
+def thread_ok(case):
+    return case['kind'] != 'switch'
+
 def gen(rng, tier):
     cases = []
     for n in range(0, 41):
@@ -75,7 +81,28 @@ def impl(case):
                 del c
                 gc.collect()
         return {'out': 'OK', 'seq': outs}
-    return {'out': outcome(lambda: iso8583.loads(b, encoding=case['codec'], iso_config=case['cfg']), iu.dict_text)}
+    via = len(case['bytes']) % 4
+    if via == 0:
+        return {'out': outcome(lambda: iso8583.loads(b, encoding=case['codec'], iso_config=case['cfg']), iu.dict_text)}
+    # the same record read from a one-record file by IpmReader; the configuration reaches the reader through the
+    # constructor, through its public attributes after construction, or through a subclass that computes them
+    import io
+    from cardutil import mciipm
+    data = len(b).to_bytes(4, 'big') + b + bytes(4)
+
+    def read():
+        if via == 1:
+            r = mciipm.IpmReader(io.BytesIO(data), encoding=case['codec'], iso_config=case['cfg'])
+        elif via == 2:
+            r = mciipm.IpmReader(io.BytesIO(data))
+            r.encoding, r.iso_config = case['codec'], case['cfg']
+        else:
+            class Reader(mciipm.IpmReader):
+                iso_config = property(lambda self: case['cfg'], lambda self, v: None)
+                encoding = property(lambda self: case['codec'], lambda self, v: None)
+            r = Reader(io.BytesIO(data))
+        return next(r)
+    return {'out': outcome(read, iu.dict_text)}
 
 
 def model_lines(case, io_):
